@@ -122,6 +122,41 @@ int main(int argc, char **argv) {
             ctx.done_case();
         } while (mcx::odo_next(idx, (int)alpha.size()) && !ctx.stopped());
     }
+    // ---- direction helpers and pair queries of the constraint vocabulary (negateSepDir, the cardinal/lateral maps, getCardinalDir, addFixedRelativeSep,
+    // roundGapsUpward): each has a one-line geometric meaning that is checked on every placement
+    ctx.phase("SepDir helpers and SepMatrix pair queries: negateSepDir, cardinal<->lateral maps, getCardinalDir, addFixedRelativeSep, roundGapsUpward");
+    for (int di = 0; di < 8; di++) for (auto gt : gts) for (auto st : sts) for (double g : {0.0, 1.0, -1.0, 2.5}) {
+        if (!ctx.next()) continue; ctx.count("states"); ctx.count("evaluations"); ctx.count("nontrivial");
+        string cd = mcx::fmt("dir=%s gt=%d st=%d gap=%g", DN[di], (int)gt, (int)st, g); ctx.sample(cd, 1);
+        // storing the constraint under (a,b) or its NEGATION (by the library's own negateSepDir) under (b,a) is equivalent
+        if (negateSepDir(DIRS[di]) != DIRS[OPP[di]]) ctx.violation("negateSepDir_wrong", {}, cd);
+        { SepMatrix m1(nullptr), m2(nullptr); m1.addSep(0, 1, gt, DIRS[di], st, g); m2.addSep(1, 0, gt, negateSepDir(DIRS[di]), st, g); SepPair_SP s1 = m1.checkSepPair(0, 1), s2 = m2.checkSepPair(0, 1);
+          if (!s1 || !s2) ctx.violation("pair_missing", {}, cd); else for (auto &p : pl2) if (sat(*s1, p) != sat(*s2, p)) { ctx.violation("negation_under_reversed_ids_not_equivalent", {}, cd, spstr(*s1) + " vs " + spstr(*s2)); break; } }
+        if (di < 4) {
+            static const CardinalDir CD[4] = {CardinalDir::EAST, CardinalDir::SOUTH, CardinalDir::WEST, CardinalDir::NORTH};
+            if (sepDirToCardinalDir(DIRS[di]) != CD[di] || cardinalDirToSepDir(CD[di]) != DIRS[di]) ctx.violation("cardinal_maps_wrong", {}, cd);
+            if (lateralWeakening(DIRS[di]) != DIRS[di + 4] || cardinalStrengthening(DIRS[di + 4]) != DIRS[di]) ctx.violation("lateral_maps_wrong", {}, cd);
+            // the cardinal constraint implies its lateral weakening on every placement
+            { SepMatrix mc(nullptr), ml(nullptr); mc.addSep(0, 1, gt, DIRS[di], st, g); ml.addSep(0, 1, gt, lateralWeakening(DIRS[di]), st, g); for (auto &p : pl2) if (sat(*mc.checkSepPair(0, 1), p) && !sat(*ml.checkSepPair(0, 1), p)) { ctx.violation("lateral_weakening_not_implied", {}, cd); break; } }
+            // getCardinalDir names the side on which node 1 lies in every satisfying placement (positive separation), and flips with the id order
+            if (g > 0 || (g == 0 && gt == GapType::BDRY)) { SepMatrix m(nullptr);   /* the sign of a stored gap IS the direction: a negative gap is outside the vocabulary */ m.addSep(0, 1, gt, DIRS[di], st, g); CardinalDir a = m.getCardinalDir(0, 1), b = m.getCardinalDir(1, 0);
+                if (a != CD[di] || b != CD[(di + 2) % 4]) ctx.violation("getCardinalDir_wrong", {}, cd, mcx::fmt("(0,1)->%d (1,0)->%d", (int)a, (int)b));
+                for (auto &p : pl2) if (sat(*m.checkSepPair(0, 1), p)) { double dx = p.x[1] - p.x[0], dy = p.y[1] - p.y[0]; bool ok = di == 0 ? dx > 0 : di == 1 ? dy > 0 : di == 2 ? dx < 0 : dy < 0; if (g > 0 && !ok) { ctx.violation("cardinal_direction_disagrees_with_geometry", {}, cd, mcx::fmt("b-a=(%g,%g)", dx, dy)); break; } } }
+        }
+        // roundGapsUpward: |gap| rounded up to an integer, sign kept
+        { SepMatrix m(nullptr); m.addSep(0, 1, gt, DIRS[di], st, g); SepPair before = *m.checkSepPair(0, 1); m.roundGapsUpward(); SepPair after = *m.checkSepPair(0, 1);
+          auto okr = [](double b, double a) { return fabs(a) == ceil(fabs(b)) && signbit(a) == signbit(b); };
+          if (!okr(before.xgap, after.xgap) || !okr(before.ygap, after.ygap) || before.xst != after.xst || before.yst != after.yst || before.xgt != after.xgt || before.ygt != after.ygt) ctx.violation("roundGapsUpward_wrong", {}, cd, spstr(before) + " -> " + spstr(after)); }
+        ctx.done_case();
+    }
+    for (double dx : {0.0, 3.0, -7.5}) for (double dy : {0.0, 4.0, -2.5}) for (int order = 0; order < 2; order++) {
+        if (!ctx.next()) continue; ctx.count("states"); ctx.count("evaluations"); ctx.count("nontrivial");
+        SepMatrix m(nullptr); if (order == 0) m.addFixedRelativeSep(0, 1, dx, dy); else m.addFixedRelativeSep(1, 0, -dx, -dy);
+        string cd = mcx::fmt("addFixedRelativeSep(%s, %g, %g)", order ? "1,0" : "0,1", order ? -dx : dx, order ? -dy : dy);
+        for (double bx : {0.0, 3.0, -7.5, 1.0}) for (double by : {0.0, 4.0, -2.5, 1.0}) { Pl p; p.x[0] = 10; p.y[0] = -5; p.x[1] = 10 + bx; p.y[1] = -5 + by; p.w[0] = p.w[1] = 2; p.h[0] = p.h[1] = 4;
+            bool want = (bx == dx && by == dy), got = sat(*m.checkSepPair(0, 1), p); if (want != got) { ctx.violation("fixed_relative_sep_wrong", {}, cd, mcx::fmt("offset (%g,%g): satisfied=%d", bx, by, got)); break; } }
+        ctx.done_case();
+    }
     // ---- SepMatrix subset operations.  transformClosedSubset / transformOpenSubset / removeNodes / removeNode / setCorrespondingConstraints walk the
     // sparse id matrix and an id set in step (merge walks); which pairs they must touch is a one-line rule: closed = both ends in the set, open = at
     // least one end in the set, removeNodes = drop every pair with an end in the set, setCorrespondingConstraints(other) = copy every pair with both ends
